@@ -56,7 +56,7 @@ Section Run.
   Qed.
 End Run.
 
-(* C19 on the operation the SOURCE's loop body performs (SourceFacts.mc_step_is_source: the proposal of a step is
+(* C19 on the operation the SOURCE's loop body performs (SrcOpt.mc_step_is_source: the proposal of a step is
    w_set_sampled on the drawn handle with step max_step * step_ratio): in every reachable state of every run, for every
    draw, the one parameter it changes moves by at most max_step x (range) / 2, and no other parameter moves *)
 Section SourceStep.
